@@ -4,7 +4,8 @@
 
    Full statement (C22_full): for every type T and value v, convert T v is v itself when v is an error and
    otherwise a right-type value or a text, and convert T (convert T v) = convert T v.
-   The unchanged code violates it in four ways, each with a witness below; the positive theorems exclude
+   Totality holds in full (C22_convert_total; the Blob defect was repaired in /repo f9e437d).  Idempotence is
+   violated by the current code in three ways, each with a witness below; C22_convert_idem_partial excludes
    exactly these. *)
 From Coq Require Import ZArith List Bool String.
 Import ListNotations.
@@ -16,16 +17,17 @@ Definition C22_full : Prop := forall orc T v,
 
 (* ---- totality ------------------------------------------------------------------------------- *)
 
-(* Every type but Blob: the error unchanged, or (never an error) a value of the type or a text.
+(* All 16 types: the error unchanged, or (never an error) a value of the type or a text.
    rows_ok: row ids inside record sets handed to a reference-list type are valid (short) row ids. *)
-Theorem C22_convert_total_partial : forall orc T v, T <> TBlob -> rows_ok T v -> total_at orc T v.
+Theorem C22_convert_total : forall orc T v, rows_ok T v -> total_at orc T v.
 Proof. exact convert_total. Qed.
 
-(* Blob.do_convert is the identity: 5 comes back as 5, which is not bytes/None, not an error, not text. *)
-Theorem C22_refuted_blob : forall orc, ~ total_at orc TBlob (PInt false 5).
-Proof.
-  intros orc [[H _]|[_ [_ [H|H]]]]; cbn in H; discriminate.
-Qed.
+(* Regression (fixed in /repo f9e437d; before it Blob.do_convert was the identity and 5 came back as 5):
+   a non-bytes value in a Blob column becomes its text, bytes and None are kept. *)
+Example C22_regression_blob : forall orc,
+  convert orc TBlob (PInt false 5) = PStr false (Str "5") /\
+  convert orc TBlob (PBytes false [120]) = PBytes false [120] /\ convert orc TBlob PNone = PNone.
+Proof. intros orc. repeat split; reflexivity. Qed.
 
 (* ---- idempotence ---------------------------------------------------------------------------- *)
 
@@ -89,7 +91,7 @@ Definition no_tables : tables := Build_tables [] [] [] [] [] [] [] [] [] [] [] [
 Example C22_nonvacuous_int :
   let orc := oracles_of no_tables in
   let v := PFloat false (FNum 25 (-1)) in
-  convert orc TInt v = PInt false 12 /\ rows_ok TInt v /\ TInt <> TBlob /\
+  convert orc TInt v = PInt false 12 /\ rows_ok TInt v /\
   fallback_text orc TInt v = None /\ ~ degenerate TInt (convert orc TInt v).
 Proof. cbv zeta. repeat split; try reflexivity; try discriminate. intro H; exact H. Qed.
 
